@@ -13,7 +13,7 @@ Sources of cases:
 import subprocess
 
 import vlib
-from props.c05 import ARCH, build_chain, c05_oracle, fmt_case, fp_supported, le_bytes, parse_case, parse_frames, sym
+from props.c05 import ARCH, build_chain, c05_oracle, fmt_case, fp_supported, le_bytes, parse_case, parse_frames, sym, win_stack
 from runner import PropBase
 from vlib import Rng
 
@@ -60,13 +60,21 @@ def mixed_stack(rng, arch, os_, depth):
     for i, t in enumerate(techs):
         nxt = techs[i + 1] if i + 1 < depth else rng.choice(["cfi", "scan"])
         ra = (m0 if nxt == "cfi" else m1) + 0x100 + 0x10 * (i % 100)
+        decoy = lambda: le_bytes(rng.choice([m1 + 0x300 + 4 * rng.below(64), m0 + 0x300 + 4 * rng.below(64), 0]), pw)
         if t == "cfi":
-            data += [0] * ((n_words - 1) * pw) + le_bytes(ra, pw)
+            # CFI never looks at the frame's other words: fill them with return-address look-alikes
+            for _ in range(n_words - 1):
+                data += decoy()
+            data += le_bytes(ra, pw)
             sp += n_words * pw
         else:
             lo = skip if i > 0 else 0
             gap = rng.range(lo, lo + rng.choice([0, 1, 5, (win_ctx if i == 0 else win) - 1 - lo]))
-            data += [0] * (gap * pw) + le_bytes(ra, pw)
+            # mips32: the first MIN_ARGS words of a non-context frame (outgoing argument area) are skipped by the
+            # scan -- plant code-looking values exactly there
+            for w in range(gap):
+                data += decoy() if w < lo else [0] * pw
+            data += le_bytes(ra, pw)
             sp += (gap + 1) * pw
         exp.append(dict(instr=ra - adj, resume=ra, sp=sp, trust=t))
     case = fmt_case(arch, os_, ip0, base, 0, 0, [0] * A["ngp"], "*", base, data, mods)
@@ -232,10 +240,15 @@ class C04(PropBase):
             dist["python_chains"][key] = dist["python_chains"].get(key, 0) + 1
         n_c = 1500 if tier == "quick" else 15000
         for _ in range(n_c):
-            arch = rng.choice([0, 1, 2, 3, 4, 5, 6])
+            arch = rng.choice([0, 1, 2, 3, 4, 4, 4, 5, 6])
             case, exp = mixed_stack(rng, arch, rng.choice([0, 1, 2]), rng.choice([1, 2, 3, 5, 8, 13, 21, 34, 64]))
             cases.append(case + " " + fmt_exp(exp))
             dist["mixed"] += 1
+        n_d = 1200 if tier == "quick" else 12000
+        for _ in range(n_d):
+            case, exp = win_stack(rng, rng.choice([3, 4, 4, 5, 6, 8, 12, 20, 40]))
+            cases.append(case + " " + fmt_exp(exp))
+        dist["stack_win_x86"] = n_d
         return cases, dist, False
 
 
